@@ -946,7 +946,7 @@ namespace awkward {
   template <typename T>
   const ContentPtr
   ListArrayOf<T>::num(int64_t axis, int64_t depth) const {
-    int64_t posaxis = axis_wrap_if_negative(axis);
+    int64_t posaxis = axis_wrap_if_negative(axis, depth);
     if (posaxis == depth) {
       Index64 out(1);
       out.setitem_at_nowrap(0, length());
@@ -1313,7 +1313,7 @@ namespace awkward {
   template <typename T>
   const ContentPtr
   ListArrayOf<T>::rpad(int64_t target, int64_t axis, int64_t depth) const {
-    int64_t posaxis = axis_wrap_if_negative(axis);
+    int64_t posaxis = axis_wrap_if_negative(axis, depth);
     if (posaxis == depth) {
       return rpad_axis0(target, false);
     }
@@ -1410,7 +1410,7 @@ namespace awkward {
   template <typename T>
   const ContentPtr
   ListArrayOf<T>::localindex(int64_t axis, int64_t depth) const {
-    int64_t posaxis = axis_wrap_if_negative(axis);
+    int64_t posaxis = axis_wrap_if_negative(axis, depth);
     if (posaxis == depth) {
       return localindex_axis0();
     }
@@ -1454,7 +1454,7 @@ namespace awkward {
         std::string("in combinations, 'n' must be at least 1") + FILENAME(__LINE__));
     }
 
-    int64_t posaxis = axis_wrap_if_negative(axis);
+    int64_t posaxis = axis_wrap_if_negative(axis, depth);
     if (posaxis == depth) {
       return combinations_axis0(n, replacement, recordlookup, parameters);
     }
